@@ -54,14 +54,14 @@ int main(int argc, char** argv) {
   Lsm L;
   add_simple_ops(L.ops);
   const size_t nsimple = L.ops.size();
-  add_module_ops(L.ops, {4, 16});
+  add_module_ops(L.ops, {4, 16, 8192});
   const size_t nmod_end = L.ops.size();
   add_table_ops(L.ops);
   const size_t nmain = L.ops.size();
-  add_module_ops(L.ops, {4, 16}, 1);  // the same entry points on different data (second thread of same-call pairs)
+  add_module_ops(L.ops, {4, 16, 8192}, 1);  // the same entry points on different data (second thread of same-call pairs)
   std::map<int, int> twin;
   for (size_t k = nsimple; k < nmod_end; ++k) for (size_t j = nmain; j < L.ops.size(); ++j) if (L.ops[j].name == L.ops[k].name + "#data1") twin[(int)k] = (int)j;
-  lsm_arena_page_align();
+  lsm_seal_root();
   Ctx ctx(args);
   const bool th = args.thorough();
   L.init_shared();
@@ -114,10 +114,12 @@ int main(int argc, char** argv) {
     for (size_t a = 0; a < heavy.size(); ++a) for (size_t b = 0; b < light.size(); ++b) if (th || b % 6 == a % 6) scen.push_back({"S1 module pair", {heavy[a], light[b]}});
     for (size_t a = 0; a < light.size(); ++a) for (size_t b = a; b < light.size(); ++b) if (th || a == b) scen.push_back({"S1 module pair", {light[a], (a == b && twin.count(light[b])) ? twin[light[b]] : light[b]}});
     if (th) for (size_t a = 0; a + 2 < heavy.size(); a += 2) scen.push_back({"S1 module triple", {heavy[a], heavy[a + 1], heavy[a + 2]}});
+    // the large dimensions (m=4096, N=8192) are Engine B's job; the scheduler works on the small ones
+    auto small_dim = [&](size_t k) { return L.ops[k].name.find("4096") == std::string::npos && L.ops[k].name.find("8192") == std::string::npos; };
     // S2: warmed *_simple calls, equal and different dimensions / parameters
-    for (size_t a = 0; a < nsimple; ++a) for (size_t b = a; b < nsimple; ++b) if (L.ops[a].family == L.ops[b].family) scen.push_back({"S2 warmed simple pair", {(int)a, (int)b}});
+    for (size_t a = 0; a < nsimple; ++a) for (size_t b = a; b < nsimple; ++b) if (L.ops[a].family == L.ops[b].family && small_dim(a) && small_dim(b)) scen.push_back({"S2 warmed simple pair", {(int)a, (int)b}});
     // S3: table-based kernels on one shared table
-    for (size_t a = nmod_end; a < L.ops.size(); ++a) { scen.push_back({"S3 table pair", {(int)a, (int)a}}); if (a + 1 < L.ops.size()) scen.push_back({"S3 table pair", {(int)a, (int)a + 1}}); }
+    for (size_t a = nmod_end; a < nmain; ++a) { if (!small_dim(a) || (a + 1 < nmain && !small_dim(a + 1))) continue; scen.push_back({"S3 table pair", {(int)a, (int)a}}); if (a + 1 < L.ops.size()) scen.push_back({"S3 table pair", {(int)a, (int)a + 1}}); }
   }
   const int bound = th ? 3 : 2;
   ctx.parallel(scen.size(), [&](uint64_t si) {
